@@ -855,6 +855,9 @@ def path_forms(f: FuncInfo, g: CFG, e: ast.expr, at: Node, max_paths: int = 256)
                 elif isinstance(t, (ast.Tuple, ast.List)) and isinstance(val, (ast.Tuple, ast.List)) and len(t.elts) == len(val.elts) and all(isinstance(x, ast.Name) for x in t.elts):
                     for x, v_ in zip(t.elts, val.elts):
                         env2[x.id] = v_
+                elif isinstance(t, (ast.Tuple, ast.List)) and all(isinstance(x, ast.Name) for x in t.elts) and isinstance(val, (ast.Name, ast.Attribute, ast.Subscript)):
+                    for i_, x in enumerate(t.elts):      # `r, s, d = x.shape`
+                        env2[x.id] = ast.fix_missing_locations(ast.copy_location(ast.Subscript(value=val, slice=ast.Constant(value=i_), ctx=ast.Load()), a))
                 else:
                     for x in ast.walk(t):
                         if isinstance(x, ast.Name) and isinstance(x.ctx, ast.Store):
@@ -980,6 +983,10 @@ def path_summaries(f: FuncInfo, g: CFG | None = None, max_paths: int = 512) -> l
                     pairs.extend((te, subst(ve, env, ver)) for te, ve in zip(t.elts, a.value.elts))  # right-hand sides are evaluated before any binding
                 elif isinstance(t, (ast.Tuple, ast.List)) and isinstance(val, (ast.Tuple, ast.List)) and len(t.elts) == len(val.elts) and not isinstance(a, ast.AugAssign):
                     pairs.extend(zip(t.elts, val.elts))  # unpacking of a local that holds a tuple display
+                elif isinstance(t, (ast.Tuple, ast.List)) and all(isinstance(te, ast.Name) for te in t.elts) and isinstance(val, (ast.Name, ast.Attribute, ast.Subscript)) \
+                        and not isinstance(a, ast.AugAssign):
+                    # `r, s, d = x.shape`: element i of a value that is read without effects
+                    pairs.extend((te, ast.fix_missing_locations(ast.copy_location(ast.Subscript(value=val, slice=ast.Constant(value=i_), ctx=ast.Load()), a))) for i_, te in enumerate(t.elts))
                 else:
                     pairs.append((t, val))
             for t, val in pairs:
